@@ -77,15 +77,16 @@ void h_parse_authority_exact(void) {
         return;
     }
     size_t A = u.authority.len;
-    CHECK(u.authority.ptr == text && A == (SL != NONE ? SL : (QM != NONE ? QM : n)), "authority = text up to the first '/', else up to the first '?', else all of it");
-    CHECK(QM == NONE || A <= QM, "RFC 3986 3.2: a '?' before the first '/' terminates the authority (query without path)");
+    bool slash_first = SL != NONE && (QM == NONE || SL < QM);
+    CHECK(u.authority.ptr == text && A == (slash_first ? SL : (QM != NONE ? QM : n)), "authority = text up to the first '/' or '?', whichever comes first, else all of it");
+    CHECK((QM == NONE || A <= QM) && (SL == NONE || A <= SL), "RFC 3986 3.2: a '?' before the first '/' terminates the authority (query without path)");
     CHECK(str.ptr == text + A && str.len == n - A, "cursor advanced by exactly the authority");
     if (A == n) {
         CHECK(u.path.ptr == NULL && u.path.len == 0 && u.path_and_query.ptr == NULL && u.path_and_query.len == 0, "no path: path views reset to NULL/0");
     } else {
         CHECK(VIEW_KEPT(path) && VIEW_KEPT(path_and_query), "path views left to the later states");
     }
-    CHECK(err || p.state == (A == n ? FINISHED : (SL != NONE ? ON_PATH : ON_QUERY_STRING)), "next state follows the delimiter found");
+    CHECK(err || p.state == (A == n ? FINISHED : (slash_first ? ON_PATH : ON_QUERY_STRING)), "next state follows the delimiter found");
     if (A == 0) {
         CHECK(g_mc_n == 2 && !err && VIEW_KEPT(userinfo) && VIEW_KEPT(user) && VIEW_KEPT(password) && VIEW_KEPT(host_name) && u.port == u0.port,
               "empty authority: user-info, host and port untouched, no error");
